@@ -34,6 +34,10 @@ ConfS(hc, order, lc, ct, subs) == [hc |-> [h \in H |-> IF h \in DOMAIN hc THEN h
                                    subs |-> [h \in H |-> IF h \in DOMAIN subs THEN subs[h] ELSE <<>>]]
 HC_pq == [p |-> Hdl({"create", "update"}), q |-> Hdl({"create", "update"})]
 Confs_sub == {ConfS(HC_pq, <<"p", "q">>, lc, 2, [p |-> <<"p/x", "p/y">>]) : lc \in {"one", "all", "asap"}}
+\* a handler with a timeout: retried on temporary / arbitrary errors, across kills and restarts
+HdlT(reasons, t) == [reasons |-> reasons, optional |-> FALSE, deleted |-> FALSE, retries |-> 0, mode |-> "temporary", backoff |-> 1, timeout |-> t]
+NoneT == [reasons |-> {}, optional |-> FALSE, deleted |-> FALSE, retries |-> 0, mode |-> "temporary", backoff |-> 2, timeout |-> 0]
+Confs_to == {[hc |-> [h \in H |-> IF h = "a" THEN HdlT({"create", "update"}, t) ELSE NoneT], order |-> <<"a">>, lifecycle |-> "asap", ctimeout |-> 2] : t \in {2, 3}}
 NoDoors == {}
 AllDoors == {"kill", "lost", "late", "stop"}
 LateOnly == {"late"}
